@@ -22,11 +22,11 @@ RULE = ('simulated libraries with known truth: 1-8 cells, 1-40 sites on both str
         'pooling 0/1, max_associated_fragments cap; API runs (MoleculeIterator + write_tags) and the single-process command line; histories: '
         'input with random duplicate bits and stale RC/af/TF tags, and re-tagging the tagged output. Non-trivial = library with at least one '
         'true molecule of >=2 fragments and at least two molecules at one site; distinct = distinct (library seed, configuration).'
-        ' Plus ejection intervals 0..25 on API and command line, molecules of >255 fragments, and: with exact UMIs the copies of one true molecule are never spread over two molecules (any radius).')
+        ' Plus ejection intervals 0..25 on API and command line, molecules of >255 fragments, and: with exact UMIs the copies of one true molecule are never spread over two molecules (any radius); plain Fragment / Molecule on paired inserts whose copies differ in read length, also beyond the insert, with the exact partition demanded.')
 ASSUMPTIONS = ['the simulator is the truth (cell, site, strand, UMI by construction)',
                'for hamming>0 / radius>0 only soundness is demanded (chain linkage), for hamming 0 and radius 0 exact equality of the partition']
 MIN_NONTRIVIAL = {'quick': 60, 'thorough': 2000}
-REQUIRED_MONITORS = ['history:peek_then_full_pass', 'lib:molecules_of_more_than_255_fragments', 'eject:interval_shrunk', 'partition:no_split_checked', 'class:plain_fragment', 'hook:Molecule.write_tags', 'partition:exact_compared', 'partition:soundness_checked', 'tags:molecules_checked',
+REQUIRED_MONITORS = ['history:peek_then_full_pass', 'lib:molecules_of_more_than_255_fragments', 'eject:interval_shrunk', 'partition:no_split_checked', 'class:plain_fragment', 'lib:hard_clipped_fragments', 'class:plain_paired_inserts', 'lib:plain_copies_with_mates_running_past_the_insert', 'hook:Molecule.write_tags', 'partition:exact_compared', 'partition:soundness_checked', 'tags:molecules_checked',
                      'history:input_with_duplicate_bits', 'history:retagged', 'cli:records_checked', 'cap:overflow_molecules']
 SHARD_TIMEOUT = {'quick': 900, 'thorough': 5400}
 
@@ -119,6 +119,58 @@ def truth_partition(truths, valid_only=True):
     return set(frozenset(g) for g in groups.values())
 
 
+def plain_insert_library(r, case_id, contigs, d):
+    """paired-end library for the plain Fragment / Molecule classes. A molecule is an insert [s, e) of one cell with one UMI on one strand; its
+    copies share both insert coordinates, while the lengths of their reads differ - also beyond the insert (mates that run past each other's
+    start, as with inserts shorter than a read). The span of such a fragment is anchored on the 5' ends of the two mates, so all copies are
+    identical (cell, start, end, strand, UMI). Different molecules of one (cell, strand) never share a start or an end unless told apart by UMI."""
+    gen = F.Genome(r, contigs)
+    recs, truths = [], {}
+    rid = 1
+    used = defaultdict(set)
+    for _ in range(r.randint(3, 30)):
+        name, ln = r.choice(contigs)
+        ref = gen.get(name)
+        ins = r.choice([r.randint(12, 40), r.randint(20, 120), r.randint(100, 400)])
+        s = r.randrange(70, ln - ins - 70)
+        e = s + ins
+        cell, reverse = r.randint(1, 3), r.random() < 0.5
+        if any(x in used[(name, cell, reverse)] for x in (('s', s), ('e', e))):
+            continue
+        used[(name, cell, reverse)].update([('s', s), ('e', e)])
+        umis = [F.rand_dna(r, 3)]
+        while r.random() < 0.4:
+            # another molecule on exactly the same insert, told apart by its UMI only
+            u = F.rand_dna(r, 3)
+            if all(hd(u, x) > d for x in umis):
+                umis.append(u)
+        for umi in umis:
+            for _c in range(r.randint(1, 4)):
+                l1, l2 = r.choice([20, 30, 40, 60]), r.choice([20, 30, 40, 60])
+                if not reverse:
+                    a1, b1, a2, b2 = s, s + l1, e - l2, e
+                else:
+                    a1, b1, a2, b2 = e - l1, e, s, s + l2
+                if min(a1, a2) < s or max(b1, b2) > e:
+                    PLAIN_PAST[0] += 1
+                qn = F.qname(rid, case_id, cell, umi)
+                tl = max(b1, b2) - min(a1, a2)
+                f1 = 1 | 2 | 64 | (16 if reverse else 32)
+                f2 = 1 | 2 | 128 | (32 if reverse else 16)
+                recs.append({'name': qn, 'flag': f1, 'tid': gen.tid(name), 'pos': a1, 'mapq': 60, 'cigar': f'{b1 - a1}M', 'seq': ref[a1:b1], 'qual': [30] * (b1 - a1),
+                             'tags': {'MD': str(b1 - a1), 'NM': 0}, 'next_tid': gen.tid(name), 'next_pos': a2, 'tlen': -tl if reverse else tl})
+                recs.append({'name': qn, 'flag': f2, 'tid': gen.tid(name), 'pos': a2, 'mapq': 60, 'cigar': f'{b2 - a2}M', 'seq': ref[a2:b2], 'qual': [30] * (b2 - a2),
+                             'tags': {'MD': str(b2 - a2), 'NM': 0}, 'next_tid': gen.tid(name), 'next_pos': a1, 'tlen': tl if reverse else -tl})
+                truths[rid] = {'id': rid, 'cell': cell, 'sample': f'LIB_{cell}', 'contig': name, 'site': s if not reverse else e, 'reverse': reverse, 'umi': umi,
+                               'valid': True, 'clip': 0, 'method': 'plain', 'span': (s, e), 'r1': (a1, b1), 'r2': (a2, b2),
+                               'key': (f'LIB_{cell}', name, s, e, reverse, umi)}
+                rid += 1
+    return gen, recs, truths
+
+
+PLAIN_PAST = [0]
+
+
 def run_case(case):
     import pysam
     import singlecellmultiomics.molecule as smm
@@ -143,12 +195,20 @@ def run_case(case):
         # molecules of more than 255 fragments: the fragment-count and rank tags pass the range of a byte
         n_sites, cap = 2, None
         acc.count('lib:molecules_of_more_than_255_fragments')
-    gen, recs, truths = F.simulate_library(
+    plain_inserts = case['i'] % 8 == 3
+    if plain_inserts:
+        method, radius, cap, deep = 'plain', 0, None, False
+        PLAIN_PAST[0] = 0
+        gen, recs, truths = plain_insert_library(r, case['i'] + 1, contigs, d)
+        acc.count('class:plain_paired_inserts')
+        acc.count('lib:plain_copies_with_mates_running_past_the_insert', PLAIN_PAST[0])
+    else:
+      gen, recs, truths = F.simulate_library(
         r, method='nla' if method == 'plain' else method, contigs=contigs, n_cells=r.randint(1, 8) if not deep else 1, n_sites=n_sites, umi_len=r.choice([3, 3, 6]),
         umis_per_site=(1, r.choice([1, 3, 6])) if not deep else (1, 1), copies=(1, r.choice([1, 3, 5])) if not deep else (256, 300), case_id=case['i'] + 1, p_clip=0.25,
         p_invalid=0.08 if method == 'nla' else 0.0, p_umi_neighbour=0.5, chic_trimmed=trimmed,
         p_dup_flag=0.5 if history == 'dupbits' else 0.0, p_stale=0.6 if history == 'stale' else 0.0,
-        n_unmapped=r.choice([0, 0, 3]), umi_with_n=0.05)
+        n_unmapped=r.choice([0, 0, 3]), umi_with_n=0.05, p_hard_clip=r.choice([0, 0.1, 0.3]))
     if not truths:
         return acc
     cfg = {'method': method, 'hamming': d, 'radius': radius, 'pooling': pooling, 'trimmed': trimmed, 'history': history, 'cap': cap,
@@ -156,6 +216,7 @@ def run_case(case):
     acc.count('eject:interval_shrunk', 0 if eject_every is None else 1)
     if history != 'clean':
         acc.count('history:input_with_duplicate_bits')
+    acc.count('lib:hard_clipped_fragments', sum(1 for t in truths.values() if t.get('hard_clipped')))
     tp = truth_partition(truths)
     mclass = {'nla': smm.NlaIIIMolecule, 'chic': smm.CHICMolecule, 'plain': smm.Molecule}[method]
     fclass = {'nla': smf.NlaIIIFragment, 'chic': smf.CHICFragment, 'plain': smf.Fragment}[method]
@@ -200,7 +261,7 @@ def run_case(case):
         missing = valid_ids - set(all_ids) - overflow_ids
         if missing:
             acc.violate('valid-fragment-not-yielded', f'{label}: valid fragments {sorted(missing)[:5]} are in no molecule ({cfg})', wit)
-        if d == 0 and radius == 0 and not cap and method != 'plain':
+        if d == 0 and radius == 0 and not cap and (method != 'plain' or plain_inserts):
             acc.count('partition:exact_compared')
             if got != tp:
                 only_got = sorted(map(sorted, got - tp))[:3]
@@ -211,7 +272,7 @@ def run_case(case):
                             dict(wit, got=only_got, expected=only_exp, keys={i: truths[i]['key'] for g in only_got + only_exp for i in g}))
         # completeness: with exact UMI matching the copies of one true molecule (identical cell, site, strand, UMI) are never spread over two
         # molecules, whatever the assignment radius (a radius can only merge more)
-        if d == 0 and not cap and method != 'plain':
+        if d == 0 and not cap and (method != 'plain' or plain_inserts):
             acc.count('partition:no_split_checked')
             where = {}
             for gi, g in enumerate(groups):
